@@ -362,12 +362,35 @@ def parse_tokens(b, F):
     return alts
 
 
-def ctor_field_map(F, ctor_path):
+def ctor_field_map(F, ctor_path, depth=0):
     """param index (1-based) -> field name for a constructor function whose
-    body builds the ADT from its parameters."""
+    body builds the ADT from its parameters (directly, or by handing its
+    parameters to another constructor such as `new_unchecked`)."""
     b = F.bodies.get(ctor_path)
     if b is None:
         return None
+    direct = _ctor_direct(F, b)
+    if direct:
+        return direct
+    if depth < 2:
+        for bi in b.reachable_blocks():
+            t = b.blocks[bi]["t"]
+            if t["k"] == "call" and t["fn"] and re.search(r"::(new|new_unchecked|new_impl)(::<.*>)?$", t["fn"]) and (t["res"] or t["fn"]) != ctor_path:
+                inner = ctor_field_map(F, t["res"] or t["fn"], depth + 1)
+                if not inner:
+                    continue
+                m = {}
+                for i, a in enumerate(t["args"]):
+                    tt = deep_strip(b.term_of_operand(a))
+                    r = [s for s in walk(tt) if s[0] == "arg"]
+                    if len(r) == 1 and (i + 1) in inner:
+                        m[r[0][1]] = inner[i + 1]
+                if m:
+                    return m
+    return None
+
+
+def _ctor_direct(F, b):
     for bi in b.reachable_blocks():
         for st in b.blocks[bi]["s"]:
             if st[0] == "=" and st[2][0] == "agg" and st[2][1][0] == "adt" and len(st[2][1]) > 3:
